@@ -59,7 +59,96 @@ func dump(ms *yang.Modules) string {
 			}
 		}
 	}
+	lookups(ms, &b)
 	return b.String()
+}
+
+// lookups adds the answers to a fixed battery of path queries to the dump: from the root and the first top-level
+// nodes of every loaded text (modules and submodules, every revision), the absolute paths /<prefix>:<name> for the
+// text's own prefix and every import prefix and for the names of top-level nodes found anywhere in the set. The
+// answer is recorded as the text that holds the tree it lies in and its path there. Only prefixes the text can
+// resolve are used, and no rpc input/output is asked for, so the queries write nothing.
+func lookups(ms *yang.Modules, b *strings.Builder) {
+	nameSet := map[string]bool{}
+	type text struct {
+		key string
+		m   *yang.Module
+	}
+	var texts []text
+	for ri, reg := range []map[string]*yang.Module{ms.Modules, ms.SubModules} {
+		for k, m := range reg {
+			texts = append(texts, text{fmt.Sprintf("%d/%s", ri, k), m})
+			for n := range yang.ToEntry(m).Dir {
+				nameSet[n] = true
+			}
+		}
+	}
+	sort.Slice(texts, func(i, j int) bool { return texts[i].key < texts[j].key })
+	names := make([]string, 0, len(nameSet))
+	for n := range nameSet {
+		names = append(names, n)
+	}
+	sort.Strings(names)
+	if len(names) > 10 {
+		names = names[:10]
+	}
+	where := func(e *yang.Entry) string {
+		if e == nil {
+			return "nothing"
+		}
+		r := e
+		for r.Parent != nil {
+			r = r.Parent
+		}
+		held := "?"
+		if mod, ok := r.Node.(*yang.Module); ok && mod != nil {
+			held = mod.Kind() + " " + mod.FullName()
+		}
+		return held + " " + e.Path()
+	}
+	for _, t := range texts {
+		root := yang.ToEntry(t.m)
+		var prefixes []string
+		if p := t.m.GetPrefix(); p != "" {
+			prefixes = append(prefixes, p)
+		}
+		for _, im := range t.m.Import {
+			if im.Prefix != nil && im.Module != nil {
+				prefixes = append(prefixes, im.Prefix.Name)
+			}
+		}
+		starts := []*yang.Entry{root}
+		kids := make([]string, 0, len(root.Dir))
+		for k := range root.Dir {
+			kids = append(kids, k)
+		}
+		sort.Strings(kids)
+		fromSub := 0
+		for i, k := range kids {
+			c := root.Dir[k]
+			switch {
+			case i < 2:
+				starts = append(starts, c)
+			case c.Node != nil && yang.RootNode(c.Node) != nil && yang.RootNode(c.Node).Kind() == "submodule" && fromSub < 2 && t.m.Kind() == "module":
+				// a node of the module's tree whose statement stands in a submodule text
+				starts = append(starts, c)
+				fromSub++
+			}
+		}
+		for si, st := range starts {
+			if st.Node == nil {
+				continue
+			}
+			for _, p := range prefixes {
+				for _, n := range names {
+					got := st.Find("/" + p + ":" + n)
+					if got != nil {
+						fmt.Fprintf(b, "  find %s start#%d /%s:%s -> %s\n", t.key, si, p, n, where(got))
+					}
+				}
+			}
+		}
+	}
 }
 
 // read issues read-only style queries (some of which create input/output on demand).
@@ -361,6 +450,7 @@ func gen(t *rapid.T) Case {
 			c.Good, c.Hostile, withSub = nil, false, false
 		}
 		dropInclude := withSub && rapid.Bool().Draw(t, "latest-drops-include")
+		datedInclude := withSub && rapid.Bool().Draw(t, "older-revisions-include-with-date")
 		famFrom = len(c.Good)
 		for i := 0; i < n; i++ {
 			name, rev, inc, viaSub := "fam@"+dates[i]+".yang", " revision "+dates[i]+";\n", "", ""
@@ -369,6 +459,10 @@ func gen(t *rapid.T) Case {
 			}
 			if withSub {
 				inc = " include famsub;\n"
+				if i < n-1 && datedInclude {
+					// the older revisions stay with the first revision of the submodule
+					inc = " include famsub { revision-date 2019-05-05; }\n"
+				}
 				viaSub = fmt.Sprintf(" identity viasub%d { base sid; }\n leaf vs { type st; }\n typedef stu { type union { type st; type int8; } }\n leaf vsu { type stu; }\n", i)
 				if dropInclude && i == n-1 {
 					// the latest revision no longer includes the submodule and defines its identity itself
